@@ -1,6 +1,6 @@
 """Session scripts for `vh cli`: random generators and conversion of TLC-generated paths."""
 
-PROMPTS = ["$ ", "", "ж> ", "> ", "dev:~# ", "中"]
+PROMPTS = ["$ ", "", "ж> ", "> ", "dev:~# ", "中", "=> ", "λ "]
 
 SETS = {
     "raw": [],
@@ -35,9 +35,18 @@ def text_bytes(s):
     return list(s.encode("utf-8"))
 
 
-def chunk(rng, texts=OUT_TEXTS, methods=("w", "wl", "u", "f", "fc", "uc")):
+# literals the harness can pass to write! / writeln! / uwrite! / uwriteln! without run-time arguments
+K_LITS = ["done", "", "ok\n", "a\nb", "x", "ж€ z", "two\r\nrows\n"]
+METHODS = ("w", "wl", "u", "f", "fc", "uc", "kf", "kl", "ku", "kn")
+
+
+def chunk(rng, texts=OUT_TEXTS, methods=METHODS):
     m = rng.choice(methods)
     c = {"m": m, "t": text_bytes(rng.choice(texts))}
+    if m in ("kf", "ku"):
+        c["t"] = text_bytes(rng.choice(K_LITS))
+    elif m in ("kl", "kn"):
+        c["t"] = text_bytes(rng.choice(K_LITS) + "\n")
     if m in ("le", "ti"):
         # Writer::write_list_element(name, description, width) / write_title: single-line texts, any width
         c["t"] = text_bytes(rng.choice(["name", "", "longer-name", "ж", "x"]))
@@ -46,8 +55,11 @@ def chunk(rng, texts=OUT_TEXTS, methods=("w", "wl", "u", "f", "fc", "uc")):
     return c
 
 
-def handler_script(rng, p_out, p_prompt, texts=OUT_TEXTS, methods=("w", "wl", "u", "f", "fc", "uc")):
+def handler_script(rng, p_out, p_prompt, texts=OUT_TEXTS, methods=METHODS, p_perr=0.0):
     hs = {}
+    if rng.random() < p_perr:
+        # a hand-written processor that rejects the command (after whatever it wrote)
+        hs["perr"] = rng.choice([1, 2, 3])
     if rng.random() < p_out:
         hs["chunks"] = [chunk(rng, texts, methods) for _ in range(rng.randint(1, 3))]
     if rng.random() < p_prompt:
@@ -77,7 +89,7 @@ def gen_session(rng, sid, prof):
         cfg["ctor"] = rng.choice(["default", "arrays", "promptfirst", "promptfirst", "new"])
     enter_forms = prof.get("enter_forms", [[13]])
     texts = prof.get("texts", OUT_TEXTS)
-    methods = prof.get("methods", ("w", "wl", "u", "f", "fc", "uc"))
+    methods = prof.get("methods", METHODS)
     steps = []
     lo, hi = prof.get("steps", (10, 60))
     n = rng.randint(lo, hi)
@@ -86,7 +98,7 @@ def gen_session(rng, sid, prof):
         for b in bs:
             st = {"ev": "byte", "b": b}
             if with_hs and b in (13, 10):
-                hs = handler_script(rng, prof.get("hs_out", 0.0), prof.get("hs_prompt", 0.0), texts, methods)
+                hs = handler_script(rng, prof.get("hs_out", 0.0), prof.get("hs_prompt", 0.0), texts, methods, prof.get("hs_perr", 0.1))
                 if hs:
                     st["hs"] = hs
             steps.append(st)
